@@ -520,7 +520,41 @@ theorem fSplit_relax {v a r : Val} (h : fSplit v a = .ok r) : fSplit (relax v) (
         · cases h
       · cases h
 
-/-- the eight concrete filters only refine -/
+theorem isUndef_relax {v : Val} {b : Bool} (h : isUndef v = .ok b) : isUndef (relax v) = .ok b := by
+  cases v with
+  | data d => exact h
+  | undef k =>
+    simp only [isUndef] at h
+    rcases poke_ok_or_err k .cls with h1 | ⟨e, h1⟩ <;> rw [h1] at h
+    · simpa [isUndef] using h
+    · cases h
+
+theorem fRound_relax {v a r : Val} (h : fRound v a = .ok r) : fRound (relax v) (relax a) = .ok (relax r) := by
+  unfold fRound at h ⊢
+  cases hx : numArg v with
+  | error e => rw [hx] at h; cases h
+  | ok x =>
+    rw [hx] at h; rw [numArg_relax hx]
+    cases a with
+    | data d =>
+      simp only [relax_data] at h ⊢
+      cases d <;> (simp only [isUndef] at h ⊢; cases h; rfl)
+    | undef k =>
+      simp only at h
+      cases hu : isUndef (.undef k) with
+      | error e => rw [hu] at h; cases h
+      | ok b =>
+        rw [hu] at h
+        have hb : b = true := by
+          simp only [isUndef] at hu
+          rcases poke_ok_or_err k .cls with h1 | ⟨e, h1⟩ <;> rw [h1] at hu
+          · cases hu; rfl
+          · cases hu
+        subst hb
+        cases h
+        rfl
+
+/-- the nine concrete filters only refine -/
 theorem builtin_refines : Refines builtinFilters := by
   intro name v args r h
   unfold builtinFilters at h ⊢
@@ -563,6 +597,12 @@ theorem builtin_refines : Refines builtinFilters := by
       if_neg (by assumption), if_neg (by assumption), if_neg (by assumption), if_pos (by assumption)]
     match args, h with
     | [a], h => exact fSplit_relax h
+  split at h
+  · rw [if_neg (by assumption), if_neg (by assumption), if_neg (by assumption), if_neg (by assumption),
+      if_neg (by assumption), if_neg (by assumption), if_neg (by assumption), if_neg (by assumption),
+      if_pos (by assumption)]
+    match args, h with
+    | [a], h => exact fRound_relax h
   cases h
 
 /-! ## The default kind never raises `UndefinedError` -/
@@ -825,7 +865,7 @@ theorem render_quiet {F : FilterSem} (hF : Refines F) (hQ : QuietOnDefault F) (s
       | error err => intro h; simp only at h; cases h; exact ihb e1 he1 h2
       | ok q => simp
 
-/-- the eight concrete filters never raise `UndefinedError` on default-kind operands -/
+/-- the nine concrete filters never raise `UndefinedError` on default-kind operands -/
 theorem builtin_quiet : QuietOnDefault builtinFilters := by
   intro name v args h
   have hs : ∀ w : Val, ∃ s, strArg (relax w) = .ok s := by
@@ -885,6 +925,15 @@ theorem builtin_quiet : QuietOnDefault builtinFilters := by
     | [a], h =>
       obtain ⟨s, h1⟩ := hs v
       cases a <;> simp [fSplit, h1] at h
+    | _ :: _ :: _, h => cases h
+  split at h
+  · match args, h with
+    | [], h => cases h
+    | [a], h =>
+      obtain ⟨x, h1⟩ := hn v
+      cases a with
+      | data d => cases d <;> simp [fRound, h1, isUndef] at h
+      | undef k => simp [fRound, h1, isUndef] at h
     | _ :: _ :: _, h => cases h
   cases h
 
